@@ -20,9 +20,9 @@ import (
 
 func init() {
 	Registry["C09"] = Spec{
-		Fn:    c09,
-		Level: "exploration",
-		Rule: "callback histories over {append, reset+append (reuses the backing memory = overwrite in place), return nil unchanged, return nil after emptying the columns (a round without rows), io.EOF without rows, io.EOF with leftover rows, wrapped io.EOF with rows, other error}, initial rows zero or not: exhaustive up to 3 rounds before the terminal step for a fixed list of column sets (zero-copy: fixed-width integers, FixedString, ColRawOf, Bool, Float; copying: String, UUID, LowCardinality, Enum, Array, Map, Nullable) and random longer histories over random column sets from the whole catalogue, x {Disabled, None, LZ4, LZ4HC, ZSTD} x block sizes 1..3000 rows. Oracle: the Data blocks parsed by the reference codec from the bytes copied at Write time must equal [snapshot of the columns at the start of each round] + [one empty terminator] (tail rows on EOF included; nothing after a callback error except an optional Cancel). Non-trivial = >=2 rounds or a tail block; distinct = (history, column set, compression, rows)",
+		Fn:          c09,
+		Level:       "exploration",
+		Rule:        "callback histories over {append, reset+append (reuses the backing memory = overwrite in place), return nil unchanged, return nil after emptying the columns (a round without rows), io.EOF without rows, io.EOF with leftover rows, wrapped io.EOF with rows, other error}, initial rows zero or not: exhaustive up to 3 rounds before the terminal step for a fixed list of column sets (zero-copy: fixed-width integers, FixedString, ColRawOf, Bool, Float; copying: String, UUID, LowCardinality, Enum, Array, Map, Nullable) and random longer histories over random column sets from the whole catalogue, x {Disabled, None, LZ4, LZ4HC, ZSTD} x block sizes 1..3000 rows. Oracle: the Data blocks parsed by the reference codec from the bytes copied at Write time must equal [snapshot of the columns at the start of each round] + [one empty terminator] (tail rows on EOF included; nothing after a callback error except an optional Cancel). Non-trivial = >=2 rounds or a tail block; distinct = (history, column set, compression, rows)",
 		Assumptions: []string{"snapshots are taken by the harness inside OnInput before it mutates the columns", "Write calls are recorded by copying the bytes at call time"},
 		MinDistinct: 300,
 	}
